@@ -285,7 +285,8 @@ fn btpe<R: Rng + ?Sized>(btpe: Btpe, flipped: bool, rng: &mut R) -> u64 {
             let y_tmp = x_r - v.ln() / lambda_r;
             // `v == 0` gives an infinite `y_tmp`; the saturating cast below would
             // turn it into `u64::MAX`, which passes `y > n` for `n == u64::MAX`.
-            if !(y_tmp <= btpe.n as f64) {
+            // Values in `[n, n + 1)` are the proposal `y = n` and must be kept.
+            if !(y_tmp < btpe.n as f64 + 1.0) {
                 continue;
             }
             y = y_tmp as u64; // `as` cast saturates
